@@ -4,6 +4,7 @@ import (
 	"context"
 	"errors"
 	"fmt"
+	"math/big"
 	"sync"
 	"testing"
 	"time"
@@ -25,7 +26,7 @@ import (
 // C05 — syncers deliver every watched event exactly once, in chain order.
 
 const c05Rule = "case = (chain: per block 0-4 logs in {watched topic A/B, unwatched topic on a watched address, log of an unwatched " +
-	"address, removed log}, chunk size, block finality, finalized-block type, a script of tip/safe/finalized pointer moves applied " +
+	"address, removed log with the canonical or with an orphaned block hash}, chunk size, block finality, finalized-block type, a script of tip/safe/finalized pointer moves applied " +
 	"at the node's own tip polls, transient RPC failures, optional stop/restart) run through the real EVMDownloader+EVMDriver on " +
 	"the scripted chain with a recording store; oracle = history invariant on the recorded ProcessBlock calls; small chains are " +
 	"enumerated exhaustively (bounds in enumeration_bounds); non-trivial = >=2 event blocks and (a range boundary on an event block " +
@@ -121,7 +122,7 @@ func (n nopReorgDetector) String() string                                       
 type c05Step struct{ DTip, DSafe, DFin int }
 
 type c05Case struct {
-	Blocks    [][]int // per block (number = index+1): log kinds 0..4
+	Blocks    [][]int // per block (number = index+1): log kinds 0..5
 	Chunk     uint64
 	Finality  int // 0 latest, 1 safe, 2 finalized
 	FinType   int
@@ -164,7 +165,7 @@ func c05Gen(ch choose.Chooser, enum bool, maxBlocks int) c05Case {
 		var logs []int
 		nl := choose.Pick(ch, []int{0, 0, 0, 1, 1, 2, 4}, "nLogs")
 		for j := 0; j < nl; j++ {
-			logs = append(logs, choose.Pick(ch, []int{0, 0, 0, 1, 2, 3, 4}, "logKind"))
+			logs = append(logs, choose.Pick(ch, []int{0, 0, 0, 1, 2, 3, 4, 5}, "logKind"))
 		}
 		c.Blocks = append(c.Blocks, logs)
 	}
@@ -207,6 +208,10 @@ func c05Logs(kinds []int) []types.Log {
 			l.Address = c05AddrU
 		case 4:
 			l.Removed = true
+		case 5:
+			// a removed log as a node reports it: it still carries the hash of the orphaned block
+			l.Removed = true
+			l.BlockHash = common.BigToHash(new(big.Int).SetUint64(0x0bad0000 + uint64(i)))
 		}
 		out = append(out, l)
 	}
